@@ -7,7 +7,7 @@ CFG = dict(
         level="proof",
         theorems_expected=["C11_delta_inverse", "C11_delta_matches_reference", "C11_delta_write_partition", "C11_delta_read_partition",
                            "C11_bcj_inverse_arm", "C11_bcj_inverse_armthumb", "C11_bcj_inverse_arm64", "C11_bcj_inverse_ppc",
-                           "C11_bcj_inverse_sparc", "C11_bcj_inverse_ia64", "C11_bcj_inverse_x86", "C11_bcj_roundtrip_word", "C11_bcj_reader_any_sizes", "C11_bcj_reader_zero_read",
+                           "C11_bcj_inverse_sparc", "C11_bcj_inverse_ia64", "C11_bcj_inverse_x86", "C11_bcj_inverse_riscv", "C11_bcj_inverse_all", "C11_bcj_roundtrip", "C11_bcj_reader_any_sizes", "C11_bcj_reader_zero_read",
                            "C11_bcj_reader_retry", "C11_bcj_writer_partition_refuted", "C11_bcj_writer_partition_known",
                            "C11_bcj_checked_add_refuted"],
         rule="cases = (filter, parameters, data, write-call partition / inner reader script + destination-size history) derived from VERIF_SEED by "
